@@ -110,17 +110,24 @@ def project(pas, sc):
     """Abstract state of the real arrays, in the real arrays' order."""
     u, o = sc['unit'], sc['origin']
     out = []
+    BAD = (1 << 30) - 1      # garbage (non-finite / out of TLC's int range)
+
+    def iq(t):
+        t = float(t)
+        if t != t or abs(t) >= BAD:
+            return BAD
+        return int(round(t))
     for pa in pas:
         def q(name, on=True):
             v = pa.get(name, only_real_particles=False)
             if not on:
                 return [0] * len(v)
-            return [int(round((t - o) / u)) for t in v]
+            return [iq((t - o) / u) for t in v]
         out.append(dict(
             x=q('x'), y=q('y', sc['dim'] > 1), z=q('z', sc['dim'] > 2),
-            h=[int(round(t / u)) for t in pa.get('h', only_real_particles=False)],
-            id=[int(t) for t in pa.get('ident', only_real_particles=False)],
-            tag=[int(t) for t in pa.get('tag', only_real_particles=False)]))
+            h=[iq(t / u) for t in pa.get('h', only_real_particles=False)],
+            id=[iq(t) for t in pa.get('ident', only_real_particles=False)],
+            tag=[iq(t) for t in pa.get('tag', only_real_particles=False)]))
     return out
 
 
@@ -136,7 +143,8 @@ def query_all(nn, pas, cfg):
                 nn.cache[d * na + s].find_all_neighbors()
             for i in range(pas[d].get_number_of_particles()):
                 nn.get_nearest_particles(s, d, i, nbrs)
-                res.append([d, s, i, [int(v) for v in nbrs.get_npy_array()]])
+                res.append([d, s, i, [min(int(v), (1 << 30) - 1)
+                                      for v in nbrs.get_npy_array()]])
     return res
 
 
@@ -154,7 +162,8 @@ def reorder_all(nn, pas, sc, via_solver=False):
             tag=[int(t) for t in pa.get('tag', only_real_particles=False)])
         idx = LongArray()
         nn.get_spatially_ordered_indices(k, idx)
-        return before, [int(v) for v in idx.get_npy_array()]
+        return before, [max(-(1 << 30), min(int(v), (1 << 30) - 1))
+                        for v in idx.get_npy_array()]
 
     def after_of(k, pa, before, indices):
         vec = pa.get('vec', only_real_particles=False)
